@@ -1,23 +1,11 @@
-// T8a: client-supplied sizes that reach an allocation.  Translates, from server/control.go
-// NewControl, the straight-line integer code that computes the variable used as the capacity
-// of the work-connection pool channel:
-//
-//	poolCount := loginMsg.PoolCount
-//	if poolCount > int(serverCfg.Transport.MaxPoolCount) { poolCount = int(...) }
-//	if poolCount < 0 { poolCount = 0 }
-//	... make(chan net.Conn, poolCount+10) ...
-//
-// into Gallina over Z:
-//
-//	Definition gen_pool_count (login_pool_count max_pool_count : Z) : Z := let poolCount := ... in ...
-//	Definition gen_chan_cap (poolCount : Z) : Z := poolCount + 10.
-//	Definition gen_req_count (poolCount : Z) : Z := poolCount.       (upper bound of the ReqWorkConn loop in Start)
-//
-// Only these statement forms are recognised: `v := e`, `v = e`, `if c { v = e }` (no else), where
-// e, c are built from the variable, the two inputs, integer literals, int(...) conversions,
-// + - and the comparisons.  Any other statement that mentions the variable makes the unit emit
-// `Definition gen_alloc_unknown : bool := true` with the offending source text, which the
-// obligations in Proofs/AllocProofs.v refuse.
+// T8a: client-supplied sizes that reach an allocation.  Translates the straight-line integer code of
+// server.NewControl that decides the session's poolCount and the capacity of workConnCh, statement by
+// statement, into Gallina lets over Z (any local names; := / = assignments, if statements with or without an
+// init statement whose bodies only assign, int(...) conversions, min/max builtins, + - *, comparisons,
+// && || !), and checks that Start's request loop is bounded by the stored value.  loginMsg.PoolCount becomes
+// the parameter login_pool_count, serverCfg.Transport.MaxPoolCount the parameter max_pool_count.  Anything
+// else sets gen_alloc_unknown, which the obligations in Properties/C16.v refuse.  (Same recognition rules as
+// unit T11clamp of C11, written so that renaming or splitting the local variable does not change the result.)
 package main
 
 import (
@@ -25,7 +13,6 @@ import (
 	"fmt"
 	"go/ast"
 	"go/parser"
-	"go/printer"
 	"go/token"
 	"path/filepath"
 	"strings"
@@ -33,75 +20,148 @@ import (
 	"veriftranslator/tx"
 )
 
-func main() { tx.Main(tx.Unit{Name: "T8a", File: "GenAlloc.v", Fn: genAlloc}) }
-
-var inputs = map[string]string{
-	"loginMsg.PoolCount":               "login_pool_count",
-	"serverCfg.Transport.MaxPoolCount": "max_pool_count",
-}
-
-func src(fset *token.FileSet, n ast.Node) string {
-	var b bytes.Buffer
-	_ = printer.Fprint(&b, fset, n)
-	return b.String()
-}
-
 type tr struct {
-	fset    *token.FileSet
-	v       string
-	unknown []string
+	unknown bool
+	why     []string
+	n       int
 }
 
-func (t *tr) expr(e ast.Expr) string {
-	switch x := e.(type) {
-	case *ast.Ident:
-		if x.Name == t.v {
-			return t.v
-		}
-	case *ast.BasicLit:
-		if x.Kind == token.INT {
-			return "(" + x.Value + ")"
-		}
-	case *ast.ParenExpr:
-		return t.expr(x.X)
-	case *ast.SelectorExpr:
-		if n, ok := inputs[src(t.fset, x)]; ok {
-			return n
-		}
-	case *ast.CallExpr:
-		if id, ok := x.Fun.(*ast.Ident); ok && (id.Name == "int" || id.Name == "int64") && len(x.Args) == 1 {
-			return t.expr(x.Args[0])
-		}
-	case *ast.BinaryExpr:
-		l, r := t.expr(x.X), t.expr(x.Y)
-		switch x.Op {
-		case token.ADD:
-			return "(" + l + " + " + r + ")"
-		case token.SUB:
-			return "(" + l + " - " + r + ")"
-		case token.GTR:
-			return "(" + l + " >? " + r + ")"
-		case token.LSS:
-			return "(" + l + " <? " + r + ")"
-		case token.GEQ:
-			return "(" + l + " >=? " + r + ")"
-		case token.LEQ:
-			return "(" + l + " <=? " + r + ")"
-		}
-	}
-	t.unknown = append(t.unknown, src(t.fset, e))
+func (c *tr) bad(format string, a ...any) string {
+	c.unknown = true
+	c.why = append(c.why, tx.Sanitize(fmt.Sprintf(format, a...)))
 	return "0"
 }
 
-func mentions(n ast.Node, name string) bool {
-	found := false
-	ast.Inspect(n, func(x ast.Node) bool {
-		if id, ok := x.(*ast.Ident); ok && id.Name == name {
-			found = true
+func selPath(e ast.Expr) string {
+	switch v := e.(type) {
+	case *ast.Ident:
+		return v.Name
+	case *ast.SelectorExpr:
+		return selPath(v.X) + "." + v.Sel.Name
+	}
+	return "?"
+}
+
+func (c *tr) z(e ast.Expr) string {
+	switch v := e.(type) {
+	case *ast.ParenExpr:
+		return c.z(v.X)
+	case *ast.BasicLit:
+		if v.Kind == token.INT {
+			return "(" + v.Value + ")"
 		}
-		return !found
-	})
-	return found
+	case *ast.Ident:
+		return "v_" + v.Name
+	case *ast.SelectorExpr:
+		switch selPath(v) {
+		case "loginMsg.PoolCount":
+			return "login_pool_count"
+		case "serverCfg.Transport.MaxPoolCount":
+			return "max_pool_count"
+		}
+	case *ast.CallExpr:
+		if id, ok := v.Fun.(*ast.Ident); ok {
+			switch {
+			case (id.Name == "int" || id.Name == "int64") && len(v.Args) == 1:
+				return c.z(v.Args[0])
+			case (id.Name == "min" || id.Name == "max") && len(v.Args) == 2:
+				return fmt.Sprintf("(Z.%s %s %s)", id.Name, c.z(v.Args[0]), c.z(v.Args[1]))
+			}
+		}
+	case *ast.UnaryExpr:
+		if v.Op == token.SUB {
+			return "(- " + c.z(v.X) + ")"
+		}
+	case *ast.BinaryExpr:
+		op := map[token.Token]string{token.ADD: "+", token.SUB: "-", token.MUL: "*"}[v.Op]
+		if op != "" {
+			return fmt.Sprintf("(%s %s %s)", c.z(v.X), op, c.z(v.Y))
+		}
+	}
+	return c.bad("integer expression not recognised at %v", e.Pos())
+}
+
+func (c *tr) b(e ast.Expr) string {
+	switch v := e.(type) {
+	case *ast.ParenExpr:
+		return c.b(v.X)
+	case *ast.UnaryExpr:
+		if v.Op == token.NOT {
+			return "(negb " + c.b(v.X) + ")"
+		}
+	case *ast.BinaryExpr:
+		switch v.Op {
+		case token.LAND:
+			return fmt.Sprintf("(%s && %s)%%bool", c.b(v.X), c.b(v.Y))
+		case token.LOR:
+			return fmt.Sprintf("(%s || %s)%%bool", c.b(v.X), c.b(v.Y))
+		case token.GTR:
+			return fmt.Sprintf("(%s >? %s)", c.z(v.X), c.z(v.Y))
+		case token.LSS:
+			return fmt.Sprintf("(%s <? %s)", c.z(v.X), c.z(v.Y))
+		case token.GEQ:
+			return fmt.Sprintf("(%s >=? %s)", c.z(v.X), c.z(v.Y))
+		case token.LEQ:
+			return fmt.Sprintf("(%s <=? %s)", c.z(v.X), c.z(v.Y))
+		case token.EQL:
+			return fmt.Sprintf("(%s =? %s)", c.z(v.X), c.z(v.Y))
+		case token.NEQ:
+			return fmt.Sprintf("(negb (%s =? %s))", c.z(v.X), c.z(v.Y))
+		}
+	}
+	c.bad("condition not recognised at %v", e.Pos())
+	return "false"
+}
+
+// assign renders "let v_x := rhs in" for a single-variable assignment.
+func (c *tr) assign(st ast.Stmt, guard string, out *[]string) {
+	a, ok := st.(*ast.AssignStmt)
+	if !ok || len(a.Lhs) != 1 || len(a.Rhs) != 1 || (a.Tok != token.DEFINE && a.Tok != token.ASSIGN) {
+		c.bad("statement not recognised at %v", st.Pos())
+		return
+	}
+	id, ok := a.Lhs[0].(*ast.Ident)
+	if !ok {
+		c.bad("assignment target not recognised at %v", st.Pos())
+		return
+	}
+	rhs := c.z(a.Rhs[0])
+	if guard != "" {
+		if a.Tok == token.DEFINE {
+			c.bad("declaration inside a branch at %v", st.Pos())
+			return
+		}
+		rhs = fmt.Sprintf("(if %s then %s else v_%s)", guard, rhs, id.Name)
+	}
+	*out = append(*out, fmt.Sprintf("let v_%s := %s in", id.Name, rhs))
+}
+
+func (c *tr) stmt(st ast.Stmt, out *[]string) {
+	switch v := st.(type) {
+	case *ast.AssignStmt:
+		c.assign(v, "", out)
+	case *ast.IfStmt:
+		if v.Init != nil {
+			c.assign(v.Init, "", out)
+		}
+		c.n++
+		g := fmt.Sprintf("c_%d", c.n)
+		*out = append(*out, fmt.Sprintf("let %s := %s in", g, c.b(v.Cond)))
+		for _, s := range v.Body.List {
+			c.assign(s, g, out)
+		}
+		switch e := v.Else.(type) {
+		case nil:
+		case *ast.BlockStmt:
+			for _, s := range e.List {
+				c.assign(s, "(negb "+g+")", out)
+			}
+		default:
+			c.bad("else-if at %v", v.Pos())
+		}
+	default:
+		c.bad("statement not recognised at %v", st.Pos())
+	}
 }
 
 func genAlloc() ([]byte, error) {
@@ -110,135 +170,102 @@ func genAlloc() ([]byte, error) {
 	if err != nil {
 		return nil, err
 	}
-	var fn *ast.FuncDecl
-	var start *ast.FuncDecl
-	for _, d := range f.Decls {
-		if fd, ok := d.(*ast.FuncDecl); ok {
-			if fd.Name.Name == "NewControl" {
-				fn = fd
-			}
-			if fd.Name.Name == "Start" && fd.Recv != nil {
-				start = fd
-			}
-		}
-	}
-	if fn == nil {
-		return nil, fmt.Errorf("NewControl not found")
-	}
-	// the capacity expression of the chan net.Conn and the variable it mentions
-	var capExpr ast.Expr
-	ast.Inspect(fn.Body, func(n ast.Node) bool {
-		ce, ok := n.(*ast.CallExpr)
-		if !ok {
-			return true
-		}
-		if id, ok := ce.Fun.(*ast.Ident); ok && id.Name == "make" && len(ce.Args) == 2 {
-			if ct, ok := ce.Args[0].(*ast.ChanType); ok && strings.Contains(src(fset, ct.Value), "net.Conn") {
-				capExpr = ce.Args[1]
-			}
-		}
-		return true
-	})
-	if capExpr == nil {
-		return nil, fmt.Errorf("make(chan net.Conn, …) not found in NewControl")
-	}
-	v := ""
-	ast.Inspect(capExpr, func(n ast.Node) bool {
-		if id, ok := n.(*ast.Ident); ok && v == "" {
-			v = id.Name
-		}
-		return true
-	})
-	t := &tr{fset: fset, v: v}
+	c := &tr{}
 	var lets []string
-	for _, s := range fn.Body.List {
-		if !mentions(s, v) {
+	capE, storedE := "", ""
+	startOK := false
+	for _, d := range f.Decls {
+		fd, ok := d.(*ast.FuncDecl)
+		if !ok || fd.Body == nil {
 			continue
 		}
-		switch st := s.(type) {
-		case *ast.AssignStmt:
-			if len(st.Lhs) == 1 && len(st.Rhs) == 1 {
-				if id, ok := st.Lhs[0].(*ast.Ident); ok && id.Name == v {
-					lets = append(lets, fmt.Sprintf("let %s := %s in", v, t.expr(st.Rhs[0])))
-					continue
-				}
-			}
-			// the composite literal that consumes the variable ends the computation
-			if mentions(st.Rhs[0], v) && containsNode(st.Rhs[0], capExpr) {
-				continue
-			}
-			t.unknown = append(t.unknown, src(fset, st))
-		case *ast.IfStmt:
-			ok := st.Init == nil && st.Else == nil && len(st.Body.List) == 1
-			if ok {
-				as, isAs := st.Body.List[0].(*ast.AssignStmt)
-				if isAs && len(as.Lhs) == 1 && len(as.Rhs) == 1 && as.Tok == token.ASSIGN {
-					if id, isID := as.Lhs[0].(*ast.Ident); isID && id.Name == v {
-						lets = append(lets, fmt.Sprintf("let %s := if %s then %s else %s in", v, t.expr(st.Cond), t.expr(as.Rhs[0]), v))
-						continue
+		switch fd.Name.Name {
+		case "NewControl":
+			found := false
+			for _, st := range fd.Body.List {
+				if a, ok := st.(*ast.AssignStmt); ok && len(a.Rhs) == 1 {
+					if u, ok := a.Rhs[0].(*ast.UnaryExpr); ok && u.Op == token.AND {
+						if cl, ok := u.X.(*ast.CompositeLit); ok && selPath(cl.Type) == "Control" {
+							for _, el := range cl.Elts {
+								kv, ok := el.(*ast.KeyValueExpr)
+								if !ok {
+									continue
+								}
+								switch selPath(kv.Key) {
+								case "workConnCh":
+									if call, ok := kv.Value.(*ast.CallExpr); ok && selPath(call.Fun) == "make" && len(call.Args) == 2 {
+										capE = c.z(call.Args[1])
+									}
+								case "poolCount":
+									storedE = c.z(kv.Value)
+								}
+							}
+							found = true
+							break
+						}
 					}
 				}
+				c.stmt(st, &lets)
 			}
-			t.unknown = append(t.unknown, src(fset, st))
-		default:
-			t.unknown = append(t.unknown, src(fset, s))
-		}
-	}
-	capS := t.expr(capExpr)
-	// Start: for i := 0; i < ctl.poolCount; i++ { Send(ReqWorkConn) }
-	reqBound := ""
-	if start != nil {
-		ast.Inspect(start.Body, func(n ast.Node) bool {
-			fs, ok := n.(*ast.ForStmt)
-			if !ok || fs.Cond == nil {
-				return true
+			if !found || capE == "" || storedE == "" {
+				c.bad("Control literal with workConnCh and poolCount not found")
 			}
-			be, ok := fs.Cond.(*ast.BinaryExpr)
-			if ok && be.Op == token.LSS && strings.Contains(src(fset, fs.Body), "ReqWorkConn") {
-				reqBound = src(fset, be.Y)
-			}
-			return true
-		})
-	}
-	var b bytes.Buffer
-	b.WriteString("(* generated by translator unit T8a from server/control.go; do not edit *)\nFrom Coq Require Import ZArith.\nOpen Scope Z_scope.\n\n")
-	b.WriteString("Definition T8a_translated : bool := true.\n")
-	fmt.Fprintf(&b, "Definition gen_alloc_unknown : bool := %v.\n", len(t.unknown) > 0)
-	for _, u := range t.unknown {
-		fmt.Fprintf(&b, "(* not recognised: %s *)\n", tx.Sanitize(strings.ReplaceAll(u, "\n", " ")))
-	}
-	fmt.Fprintf(&b, "\nDefinition gen_pool_count (login_pool_count max_pool_count : Z) : Z :=\n")
-	for _, l := range lets {
-		fmt.Fprintf(&b, "  %s\n", l)
-	}
-	fmt.Fprintf(&b, "  %s.\n\n", v)
-	fmt.Fprintf(&b, "Definition gen_chan_cap (%s : Z) : Z := %s.\n\n", v, capS)
-	// the request loop must be bounded by the stored (clamped) pool count
-	fmt.Fprintf(&b, "Definition gen_req_bound_is_pool_count : bool := %v.  (* loop bound in Start: %s *)\n", reqBound == "ctl.poolCount", tx.Sanitize(reqBound))
-	// and the stored field must be the clamped variable
-	stored := false
-	ast.Inspect(fn.Body, func(n ast.Node) bool {
-		kv, ok := n.(*ast.KeyValueExpr)
-		if ok {
-			if k, ok := kv.Key.(*ast.Ident); ok && k.Name == "poolCount" {
-				if id, ok := kv.Value.(*ast.Ident); ok && id.Name == v {
-					stored = true
+		case "Start":
+			// for i := 0; i < ctl.poolCount; i++ { _ = ctl.msgDispatcher.Send(&msg.ReqWorkConn{}) }
+			ast.Inspect(fd.Body, func(n ast.Node) bool {
+				loop, ok := n.(*ast.ForStmt)
+				if !ok {
+					return true
 				}
-			}
+				sends := 0
+				ast.Inspect(loop.Body, func(m ast.Node) bool {
+					if cl, ok := m.(*ast.CompositeLit); ok && selPath(cl.Type) == "msg.ReqWorkConn" {
+						sends++
+					}
+					return true
+				})
+				if sends == 0 {
+					return true
+				}
+				init, ok1 := loop.Init.(*ast.AssignStmt)
+				cond, ok2 := loop.Cond.(*ast.BinaryExpr)
+				post, ok3 := loop.Post.(*ast.IncDecStmt)
+				if ok1 && ok2 && ok3 && sends == 1 && len(init.Rhs) == 1 && cond.Op == token.LSS && post.Tok == token.INC {
+					if lit, ok := init.Rhs[0].(*ast.BasicLit); ok && lit.Value == "0" && selPath(cond.Y) == "ctl.poolCount" &&
+						selPath(cond.X) == selPath(init.Lhs[0]) && selPath(post.X) == selPath(init.Lhs[0]) {
+						startOK = true
+					}
+				}
+				return false
+			})
 		}
-		return true
-	})
-	fmt.Fprintf(&b, "Definition gen_stored_pool_count_is_clamped : bool := %v.\n", stored)
-	return b.Bytes(), nil
+	}
+	var out bytes.Buffer
+	fmt.Fprintf(&out, "(* generated by translator unit T8a from server/control.go NewControl / Start; do not edit *)\n")
+	fmt.Fprintf(&out, "From Coq Require Import ZArith Bool.\nOpen Scope Z_scope.\n\n")
+	fmt.Fprintf(&out, "Definition T8a_translated : bool := true.\n")
+	fmt.Fprintf(&out, "Definition gen_alloc_unknown : bool := %v.\n", c.unknown)
+	for _, w := range c.why {
+		fmt.Fprintf(&out, "(* not recognised: %s *)\n", w)
+	}
+	if capE == "" {
+		capE = "0"
+	}
+	if storedE == "" {
+		storedE = "0"
+	}
+	fmt.Fprintf(&out, "\n(* the statements of NewControl before the Control literal, one let per assignment (any local names);\n   k receives (capacity of workConnCh, stored poolCount) *)\n")
+	fmt.Fprintf(&out, "Definition gen_alloc_env {A : Type} (login_pool_count max_pool_count : Z) (k : Z -> Z -> A) : A :=\n")
+	for _, l := range lets {
+		fmt.Fprintf(&out, "  %s\n", l)
+	}
+	fmt.Fprintf(&out, "  k %s %s.\n\n", capE, storedE)
+	fmt.Fprintf(&out, "Definition gen_pool_count (login_pool_count max_pool_count : Z) : Z := gen_alloc_env login_pool_count max_pool_count (fun _ p => p).\n")
+	fmt.Fprintf(&out, "Definition gen_chan_cap (login_pool_count max_pool_count : Z) : Z := gen_alloc_env login_pool_count max_pool_count (fun c _ => c).\n\n")
+	fmt.Fprintf(&out, "(* Start: for i := 0; i < ctl.poolCount; i++ { one Send(ReqWorkConn) } *)\n")
+	fmt.Fprintf(&out, "Definition gen_req_bound_is_pool_count : bool := %v.\n", startOK)
+	_ = strings.TrimSpace
+	return out.Bytes(), nil
 }
 
-func containsNode(root ast.Node, target ast.Node) bool {
-	found := false
-	ast.Inspect(root, func(n ast.Node) bool {
-		if n == target {
-			found = true
-		}
-		return !found
-	})
-	return found
-}
+func main() { tx.Main(tx.Unit{Name: "T8a", File: "GenAlloc.v", Fn: genAlloc}) }
